@@ -3,7 +3,7 @@
     that the blocks of one session combine into a printable log (sources and a clock sync before the events) is checked on
     real memory images of the real process by the real brecovery (tools/p_C08.py). *)
 From Coq Require Import List ZArith NArith Bool Lia.
-From BL Require Import Base.Bytes Queue.QueueModel Queue.QueueInv Recovery.Recover Recovery.RecoverProofs Recovery.ImageProofs Recovery.Vos Gen.SrcFacts.
+From BL Require Import Base.Bytes Queue.QueueModel Queue.QueueInv Recovery.Recover Recovery.RecoverProofs Recovery.ImageProofs Recovery.Vos Recovery.SortProofs Recovery.SessionImage Gen.SrcFacts.
 Import ListNotations.
 Local Open Scope Z_scope.
 
@@ -54,6 +54,28 @@ Theorem C08_good_block_recovered : forall data b id rest, good data b -> (id < 2
   exists rest', read_meta (block_image id b ++ rest) = Some (RB false id data, rest').
 Proof. exact good_block_recovered. Qed.
 Print Assumptions C08_metadata_recoverable_in_every_write_state.
+
+(** the whole image: arbitrary bytes, metadata blocks whose magic is set, channel blocks in any reachable state, in any order and number.
+    Under the scanner's hypothesis (no byte sequence equal to a magic number starts inside the arbitrary bytes) the tool finds exactly the blocks
+    and reads from each what the theorems above say ... *)
+Theorem C08_scan_finds_the_blocks : forall l, segs_ok l -> scan (image_of l) = concat (map seg_found l).
+Proof. exact scan_finds_the_blocks. Qed.
+Print Assumptions C08_scan_finds_the_blocks.
+Theorem C08_recovered_log_of_an_image : forall l, segs_ok l -> recover (image_of l) = concat (map rb_data (rb_sort (concat (map seg_found l)))).
+Proof. exact recover_image. Qed.
+(** ... and writes, for every session, all metadata it recovered (clock syncs, sources) before any data: each recovered event is preceded by them *)
+Theorem C08_metadata_before_data : forall image pre d mid m post,
+  rb_sort (scan_image (S (length image)) image) = pre ++ d :: mid ++ m :: post ->
+  rb_session d = rb_session m -> rb_is_data d = true -> rb_is_data m = false -> False.
+Proof. exact metadata_before_data. Qed.
+Print Assumptions C08_metadata_before_data.
+
+(** non-vacuity: junk, a clock-sync block, junk with a stray first-magic byte, a wrapped queue, a sources block *)
+Example C08_image_nonvacuous :
+  let s := fst (qrun (init 16) [OpWrite 9 [1;0;0;0;65]%N; OpRead 9; OpEndRead; OpWrite 9 [2;0;0;0;67;68]%N; OpWrite 9 [1;0;0;0;69]%N]) in
+  let img := [SJunk [1; 188; 2]%N; SMeta 7 [1;0;0;0;77]%N; SJunk [188; 189; 53]%N; SQueue 7 4096 s; SMeta 7 [1;0;0;0;78]%N] in
+  recover (image_of img) = [1;0;0;0;77; 1;0;0;0;78; 2;0;0;0;67;68; 1;0;0;0;69]%N.
+Proof. vm_compute. reflexivity. Qed.
 
 Example C08_srcfacts : SrcFacts.channel_dtor_clears_magic_first = true /\ SrcFacts.lib_magic_data = SrcFacts.recov_magic_data /\ SrcFacts.lib_magic_meta = SrcFacts.recov_magic_meta.
 Proof. repeat split; vm_compute; reflexivity. Qed.
